@@ -74,4 +74,8 @@ def family(word):
         return "PAF24"
     if n.startswith("VOC/"):
         return "VOC"
+    if n.startswith("SD2/"):
+        return "SD2"
+    if n.startswith("RAW/DWVW"):
+        return "RAW/DWVW"
     return n
